@@ -305,7 +305,15 @@ def run_dataset(L, cfg, mods, npc_path):
         ds = cd.CentroidDataset(**kw)
     else:
         ds = cd.CenteredInstanceDataset(crop_hw=tuple(cfg["crop_hw"]), **kw)
-    return [ds[i] for i in range(len(ds))]
+    # every index is read three times (forwards, backwards, forwards): the in-memory dataset serves
+    # repeated reads from its cache while the chunk dataset reloads from disk, so a sample that
+    # depends on the read history shows up as a disagreement between the frameworks.  The reads
+    # handed to the comparison alternate between the first and the last pass.
+    n = len(ds)
+    first = [ds[i] for i in range(n)]
+    _ = [ds[i] for i in reversed(range(n))]
+    third = [ds[i] for i in range(n)]
+    return [third[i] if i % 2 else first[i] for i in range(n)] if npc_path is not None else third
 
 
 def ser_roundtrip(v, mods):
